@@ -187,6 +187,24 @@ func c14cliLists[T any](items []T) [][]T {
 	return out
 }
 
+// every list of 3 distinct entries in three rotations (each member is once first, middle and last),
+// plus one list of 4: the options are repeatable without a stated limit
+func c14cliLists3[T any](items []T) [][]T {
+	var out [][]T
+	for i := range items {
+		for j := i + 1; j < len(items); j++ {
+			for k := j + 1; k < len(items); k++ {
+				a, b, c := items[i], items[j], items[k]
+				out = append(out, []T{a, b, c}, []T{b, c, a}, []T{c, a, b})
+			}
+		}
+	}
+	if len(items) >= 4 {
+		out = append(out, []T{items[0], items[1], items[2], items[3]}, []T{items[3], items[2], items[1], items[0]})
+	}
+	return out
+}
+
 type c14cliRun struct {
 	r   *verifkit.Result
 	dir string
@@ -243,8 +261,14 @@ func (h *c14cliRun) evalTaxonomy(scheme int, parent []int, ranks []string, only 
 		}
 	}
 	rLists, iLists, kLists := c14cliLists(rItems), c14cliLists(known), c14cliLists(kItems)
+	// longer lists (3 and 4 entries) for one option at a time, the two others empty or single
+	nShort := [3]int{len(rLists), len(iLists), len(kLists)}
+	rLists = append(rLists, c14cliLists3(rItems)...)
+	iLists = append(iLists, c14cliLists3(known)...)
+	kLists = append(kLists, c14cliLists3(kItems)...)
 	if only != nil {
 		rLists, iLists, kLists = [][]string{only.Restrict}, [][]int{only.Ignore}, [][]string{only.Require}
+		nShort = [3]int{1, 1, 1}
 	}
 
 	var seqs []c14cliSeq
@@ -263,15 +287,24 @@ func (h *c14cliRun) evalTaxonomy(scheme int, parent []int, ranks []string, only 
 		}
 	}
 
-	for _, R := range rLists {
+	for ri, R := range rLists {
 		usesSlot := false
 		for _, x := range R {
 			if x == c14cliSlot {
 				usesSlot = true
 			}
 		}
-		for _, I := range iLists {
-			for _, K := range kLists {
+		for ii, I := range iLists {
+			for ki, K := range kLists {
+				long := 0
+				for _, isLong := range []bool{ri >= nShort[0], ii >= nShort[1], ki >= nShort[2]} {
+					if isLong {
+						long++
+					}
+				}
+				if long > 1 || (long == 1 && len(R)+len(I)+len(K) > 5) {
+					continue // one long list at a time
+				}
 				c := base
 				c.Restrict, c.Ignore, c.Require = R, I, K
 				// the real option parser fills the option variables
